@@ -116,6 +116,12 @@ type G2LConfig struct {
 
 	NonNilElems []string // slice types ("[]*T") assumed to hold no nil: List T, elements as pointees (go2lean_ptr.go)
 	Maps        bool     // read-only maps as association lists (go2lean_map.go)
+
+	// (name, Lean type) of extra leading parameters of every definition (go2lean_effects.go)
+	Context [][2]string
+	// method key ("pkg.Recv.Method") → Lean template of the NEW VALUE of the receiver's pointee ({0} the pointee,
+	// {1} … the arguments): the statement `x.M(a)` becomes `x := template` (go2lean_effects.go)
+	EffPrims map[string]string
 }
 
 var g2lBasicDefault = map[string]string{
